@@ -61,6 +61,75 @@ class Contract:
         return []
 
 
+def simple_crosscheck(c, eng, paths, inp, samples_per_path=3):
+    """Engine-vs-CPython cross-check for contracts whose inputs are plain values (str / int / bool / flag words / constant tuples) and whose
+    `self` is only read through fields: every feasible terminal path is solved for concrete inputs (printable ASCII strings, a few per path),
+    the REAL function is called unbound on a SimpleNamespace carrying the fields, and its result (or exception class) is compared with the
+    value pyvc computed on that path under the model.  A disagreement means the symbolic semantics is wrong (checker broken), not the code."""
+    import importlib
+    import types
+    mod = importlib.import_module('wcmatch.' + c.module)
+    obj = mod
+    for part in c.qual.split('.'):
+        obj = getattr(obj, part)
+    printable = z3.Star(z3.Range(' ', '~'))
+
+    def conc(v, m):
+        if v.kind == 'str':
+            t = m.eval(v.t, model_completion=True).as_string()
+            return t.encode('latin-1') if v.a.get('is_bytes') else t
+        if v.kind == 'bool':
+            return z3.is_true(m.eval(v.t, model_completion=True))
+        if v.kind in ('int', 'bv'):
+            return m.eval(v.t, model_completion=True).as_long()
+        if v.kind == 'tuple':
+            return tuple(conc(x, m) for x in v.a['items'])
+        if v.kind == 'none':
+            return None
+        raise pyvc.Unsupported('cross-check: ' + v.kind)
+    bad = []
+    strs = [v.t for v in list(inp['params'].values()) + list((inp.get('fields') or {}).values()) if v.kind == 'str' and z3.is_const(v.t) and v.t.decl().kind() == z3.Z3_OP_UNINTERPRETED]
+    for st, oc in paths:
+        if oc.kind not in ('return', 'raise'):
+            continue
+        s = z3.Solver()
+        s.set('timeout', 5000)
+        s.add(*st.pc)
+        for t in strs:
+            s.add(z3.InRe(t, printable), z3.Length(t) <= 6)
+        for _ in range(samples_per_path):
+            if s.check() != z3.sat:
+                break
+            m = s.model()
+            try:
+                args = {k: conc(v, m) for k, v in inp['params'].items() if k != 'self'}
+                fields = {k: conc(v, m) for k, v in (inp.get('fields') or {}).items()}
+            except pyvc.Unsupported:
+                return bad
+            ns = types.SimpleNamespace(**fields)
+            try:
+                got = ('ok', obj(ns, **args) if 'self' in inp['params'] else obj(**args))
+            except Exception as e:
+                got = ('exc', type(e).__name__)
+            if oc.kind == 'raise':
+                want = ('exc', (oc.exc or '').split('.')[-1])
+            else:
+                rv = oc.val
+                want = ('ok', conc(rv, m) if rv.kind in ('str', 'bool', 'int', 'bv', 'tuple', 'none') else None)
+                if rv.kind == 'obj':
+                    break
+                if rv.kind == 'bool':
+                    got = (got[0], bool(got[1])) if got[0] == 'ok' else got
+            if got != want:
+                bad.append(f'inputs {args} fields {fields}: CPython {got}, pyvc {want}')
+            # ask for a different model next time
+            block = [d() != m[d] for d in m.decls() if d.arity() == 0 and d.name() in {str(t) for t in strs}]
+            if not block:
+                break
+            s.add(z3.Or(*block))
+    return bad
+
+
 def _model_str(model, limit=1500):
     try:
         return str(model)[:limit]
